@@ -940,3 +940,167 @@ class ModelObj(Sym):
 
     def __eq__(self, o):
         return self is o
+
+
+class ObjDict(ModelObj):
+    """`obj.__dict__` of a modelled object (SObj): a LIVE view of its instance attributes (the model's fields), as
+    CPython's instance `__dict__` is.  Modelled (names are constant strings):
+        d[name] (KeyError), d[name] = v, del d[name] (KeyError), name in d, len(d), bool(d), d.get(name[, default]),
+        d.update(<another object's __dict__> | <dict with constant keys>), d.copy() / dict(d) (a constant-key dict).
+    `update` stores the SAME values under the same names: a mutable value (dict, list, object) is afterwards shared
+    by the two objects (reference semantics of the model objects), exactly as in CPython -- which is the point of
+    modelling it: `new.__dict__.update(old.__dict__)` aliases every container attribute of `old`.
+    Cross-checked against CPython by `xcheck_objdict`."""
+
+    py_class = dict
+
+    def __init__(self, obj):
+        self.obj = obj
+
+    def snapshot(self):
+        return self
+
+    def _name(self, k):
+        if not isinstance(k, str) or isinstance(k, Sym):
+            raise Unsupported(f"instance __dict__ with a non-constant attribute name {k!r}")
+        return k
+
+    def py_truth(self, st):
+        return bool(self.obj.fields)
+
+    def py_len(self, st):
+        return len(self.obj.fields)
+
+    def py_contains(self, ip, st, x):
+        return self._name(x) in self.obj.fields
+
+    def py_getitem(self, ip, st, k):
+        k = self._name(k)
+        if k not in self.obj.fields:
+            from .engine import PyRaise, SExc
+
+            raise PyRaise(SExc(KeyError, (k,), site="builtin"))
+        return self.obj.fields[k]
+
+    def py_setitem(self, ip, st, k, v):
+        self.obj.fields[self._name(k)] = v
+
+    def py_delitem(self, ip, st, k):
+        k = self._name(k)
+        if k not in self.obj.fields:
+            from .engine import PyRaise, SExc
+
+            raise PyRaise(SExc(KeyError, (k,), site="builtin"))
+        del self.obj.fields[k]
+
+    def py_iter(self, ip, st):
+        return tuple(self.obj.fields)
+
+    def py_call(self, ip, st, name, args, kwargs):
+        f = self.obj.fields
+        if name == "update" and len(args) <= 1:
+            for a in args:
+                a = st.force(a) if st is not None else a
+                if isinstance(a, ObjDict):
+                    src = dict(a.obj.fields)
+                elif isinstance(a, DRef):
+                    src = dict(a.d)
+                elif isinstance(a, dict):
+                    src = dict(a)
+                else:
+                    raise Unsupported(f"instance __dict__.update({type(a).__name__})")
+                for k, v in src.items():
+                    f[self._name(k)] = v  # the same value object: shared afterwards
+            for k, v in kwargs.items():
+                f[k] = v
+            return None
+        if name == "get" and 1 <= len(args) <= 2 and not kwargs:
+            return f.get(self._name(args[0]), args[1] if len(args) > 1 else None)
+        if name == "copy" and not args:
+            return DRef(f)
+        if name == "keys" and not args:
+            return tuple(f)
+        if name == "values" and not args:
+            return tuple(f.values())
+        if name == "items" and not args:
+            return tuple(f.items())
+        if name == "__contains__" and len(args) == 1:
+            return self._name(args[0]) in f
+        raise Unsupported(f"method {name} of an instance __dict__")
+
+
+def xcheck_objdict():
+    """Concrete cross-check of ObjDict against CPython: the same operation sequence on a real object's `__dict__` and
+    on the model of an object with the same attributes; after every step the attribute names, the values and -- for
+    mutable values -- WHICH objects are shared must agree.  Returns (ok, detail)."""
+    import itertools
+
+    class _R:
+        pass
+
+    bad = []
+    n = 0
+    ops = ("update-from-other", "update-const", "set", "del", "get", "in", "len", "getitem-missing", "copy")
+    for seq in itertools.product(ops, repeat=2):
+        ra, rb = _R(), _R()
+        la, lb = [1], [2]
+        ra.x, ra.shared = 1, la
+        rb.x, rb.y, rb.shared = 5, 6, lb
+        ma, mb = SObj(_R, dict(x=1, shared=la)), SObj(_R, dict(x=5, y=6, shared=lb))
+        da, db = ObjDict(ma), ObjDict(mb)
+        for op in seq:
+            n += 1
+            try:
+                if op == "update-from-other":
+                    ra.__dict__.update(rb.__dict__)
+                    da.py_call(None, None, "update", [db], {})
+                elif op == "update-const":
+                    ra.__dict__.update({"z": 9, "x": 3})
+                    da.py_call(None, None, "update", [DRef({"z": 9, "x": 3})], {})
+                elif op == "set":
+                    ra.__dict__["w"] = 4
+                    da.py_setitem(None, None, "w", 4)
+                elif op == "del":
+                    outcome = []
+                    for side in (lambda: ra.__dict__.__delitem__("x"), lambda: da.py_delitem(None, None, "x")):
+                        try:
+                            side()
+                            outcome.append("ok")
+                        except Exception as ex:  # noqa: BLE001
+                            outcome.append(getattr(getattr(ex, "exc", None), "cls", type(ex)).__name__)
+                    if outcome[0] != outcome[1]:
+                        bad.append((seq, op, outcome))
+                elif op == "get":
+                    if ra.__dict__.get("y", 0) != da.py_call(None, None, "get", ["y", 0], {}):
+                        bad.append((seq, op))
+                elif op == "in":
+                    if ("y" in ra.__dict__) != da.py_contains(None, None, "y"):
+                        bad.append((seq, op))
+                elif op == "len":
+                    if len(ra.__dict__) != da.py_len(None) or bool(ra.__dict__) != da.py_truth(None):
+                        bad.append((seq, op))
+                elif op == "getitem-missing":
+                    try:
+                        ra.__dict__["nope"]
+                        real = "value"
+                    except KeyError:
+                        real = "KeyError"
+                    try:
+                        da.py_getitem(None, None, "nope")
+                        mod = "value"
+                    except Exception as ex:  # noqa: BLE001
+                        mod = getattr(getattr(ex, "exc", None), "cls", type(ex)).__name__
+                    if real != mod:
+                        bad.append((seq, op, real, mod))
+                elif op == "copy":
+                    c = da.py_call(None, None, "copy", [], {})
+                    if dict(ra.__dict__) != c.d or c.d is ma.fields:
+                        bad.append((seq, op))
+            except Exception as ex:  # noqa: BLE001
+                bad.append((seq, op, repr(ex)))
+            if list(ra.__dict__) != list(ma.fields) or any(ra.__dict__[k] != ma.fields[k] for k in ma.fields):
+                bad.append((seq, op, "contents differ"))
+            # sharing: the list under `shared` is rb's list in CPython exactly when it is mb's list in the model
+            if ("shared" in ra.__dict__) and ((ra.__dict__["shared"] is lb) != (ma.fields["shared"] is lb)):
+                bad.append((seq, op, "sharing differs"))
+    return (not bad, f"{n} instance-__dict__ operations compared with CPython (contents and sharing), mismatches: {bad[:3]}")
